@@ -815,7 +815,7 @@ fn gen_case(seed: u64, i: usize, tier: &str, focus: &str) -> (Cfg, Vec<String>) 
   let lis = match focus { "listener" => true, "iter" | "snapshot" => rng.chance(1, 5), _ => rng.chance(1, 3) };
   let moi = !lis && rng.chance(1, 6);
   let cfg = Cfg { policy, pcap: cap.map(|c| (c + shards as u64 - 1) / shards as u64).unwrap_or(0), cap, shards, ttl, tti, swr,
-    wheel: *rng.pick(&[2usize, 3, 4, 8, 60]), tick: 1000, mc_always: rng.chance(1, 2), moi, lis, t0: 1_000_000, async_loader: rng.chance(1, 4),
+    wheel: *rng.pick(&[2usize, 3, 4, 8, 60]), tick: *rng.pick(&[1000u64, 1000, 1000, 2000]), mc_always: rng.chance(1, 2), moi, lis, t0: 1_000_000, async_loader: rng.chance(1, 4),
     nkeys: if tti.is_some() { *rng.pick(&[3u64, 5, 8, 10]) } else { *rng.pick(&[3u64, 5, 8, 12]) } };
   let nkeys = cfg.nkeys;
   if (focus == "iter" || focus == "snapshot") && rng.chance(1, 8) {
